@@ -32,8 +32,7 @@ Proof. exact string_roundtrip. Qed.
 Print Assumptions vcf_string_roundtrip.
 
 (* INFO field key=value / key / key=. for every (Number, Type), arrays with missing entries,
-   either reader.  val_ok excludes, for the eager reader only, Characters of the writer's escape
-   set (known finding, refuted below). *)
+   either reader, every ASCII Character included (also those the writer percent-encodes). *)
 Theorem vcf_info_value_roundtrip :
   forall fmt_float prs_float (FOK : N -> Prop),
   (forall b, FOK b -> prs_float (fmt_float b) = Some b) ->
@@ -42,7 +41,7 @@ Theorem vcf_info_value_roundtrip :
   (forall b, FOK b -> fmt_float b <> []) ->
   forall lazy num ty key ov t,
   ~ In 61 key ->
-  match ov with Some v => val_ok FOK CInfo lazy v /\ typed num ty v | None => True end ->
+  match ov with Some v => val_ok FOK v /\ typed num ty v | None => True end ->
   write_info_field fmt_float key ov = Some t ->
   parse_info_field prs_float lazy num ty t = Some ov.
 Proof. exact info_field_roundtrip. Qed.
@@ -55,7 +54,7 @@ Theorem vcf_sample_value_roundtrip :
   (forall b, FOK b -> fmt_float b <> dot) ->
   (forall b, FOK b -> fmt_float b <> []) ->
   forall lazy v44 d o t,
-  match o with Some v => sval_ok FOK lazy v44 d v | None => True end ->
+  match o with Some v => sval_ok FOK v44 d v | None => True end ->
   one_text fmt_float v44 o = Some t ->
   parse_sample_value prs_float lazy d t = Some (option_map (norm_value v44) o).
 Proof. exact sample_value_roundtrip. Qed.
@@ -84,8 +83,8 @@ Theorem c09_record_roundtrip_partial :
   (forall b x, FOK b -> In x (fmt_float b) -> x <> 44 /\ x <> 9 /\ x <> 10 /\ x <> 59 /\ x <> 58) ->
   (forall b, FOK b -> fmt_float b <> dot) ->
   (forall b, FOK b -> fmt_float b <> []) ->
-  forall lazy v44 ds vs s,
-  fits FOK lazy v44 ds vs -> vs <> [] ->
+  forall (lazy : bool) v44 ds vs s,
+  fits FOK v44 ds vs -> vs <> [] ->
   write_sample fmt_float v44 vs = Some s -> s <> [] -> s <> dot ->
   (if lazy then parse_sample_lazy prs_float ds s else parse_sample_eager prs_float ds s)
   = Some (map (option_map (norm_value v44)) vs).
@@ -120,8 +119,7 @@ Theorem c09_lazy_eq_eager : forall fmt_float prs_float v45 r, span_ok r ->
 Proof. exact span_lazy_eq_eager. Qed.
 Print Assumptions c09_lazy_eq_eager.
 
-(* ... and on values: whatever the writer emits for a value of the eager fragment is read
-   identically by both readers *)
+(* ... and on values: whatever the writer emits for a value is read identically by both readers *)
 Theorem c09_lazy_eq_eager_values :
   forall fmt_float prs_float (FOK : N -> Prop),
   (forall b, FOK b -> prs_float (fmt_float b) = Some b) ->
@@ -129,32 +127,32 @@ Theorem c09_lazy_eq_eager_values :
   (forall b, FOK b -> fmt_float b <> dot) ->
   (forall b, FOK b -> fmt_float b <> []) ->
   forall c v44 num ty v t,
-  val_ok FOK c false v -> typed num ty v -> v <> VFlag ->
+  val_ok FOK v -> typed num ty v -> v <> VFlag ->
   write_value fmt_float c v44 v = Some t ->
   parse_value prs_float true num ty t = parse_value prs_float false num ty t.
 Proof. exact value_lazy_eq_eager. Qed.
 Print Assumptions c09_lazy_eq_eager_values.
 
-(* Known findings, on the faithful model: a Character of the escape set does not come back through
-   the eager reader (it does through the lazy one); a sample without values is written as an empty
-   column which the eager reader rejects *)
-Theorem c09_char_reserved_eager_refuted : exists prs c ch,
-  ch < 128 /\
-  parse_value prs false (NCount 1) TCharacter (write_char c ch) = None /\
-  parse_value prs true (NCount 1) TCharacter (write_char c ch) = Some (VCharacter ch).
-Proof. exact char_reserved_refuted. Qed.
-Print Assumptions c09_char_reserved_eager_refuted.
+(* Formerly refuted classes, now positive (repaired in the implementation; a recurrence is a new
+   failure): every ASCII Character, also of the writers' escape sets, comes back through the eager
+   and the lazy reader; a sample without values is written "." and read back as such *)
+Theorem c09_char_reserved_roundtrip : forall prs c lazy ch, ch < 128 ->
+  parse_value prs lazy (NCount 1) TCharacter (write_char c ch) = Some (VCharacter ch).
+Proof. exact char_roundtrip. Qed.
+Print Assumptions c09_char_reserved_roundtrip.
 
-Theorem c09_empty_sample_refuted : exists fmt prs ds,
-  write_sample fmt false [] = Some [] /\ parse_sample_eager prs ds [] = None.
-Proof. exact empty_sample_refuted. Qed.
-Print Assumptions c09_empty_sample_refuted.
+Theorem c09_empty_sample_roundtrip : forall fmt prs v44 ds,
+  write_sample fmt v44 [] = Some dot /\
+  parse_sample_eager prs ds dot = Some [] /\ parse_sample_lazy prs ds dot = Some [].
+Proof. exact empty_sample_roundtrip. Qed.
+Print Assumptions c09_empty_sample_roundtrip.
 
 (* non-vacuity *)
 Example c09_example_string :
   write_string CInfo [97; 59; 98; 61; 37] = [97; 37; 51; 66; 98; 37; 51; 68; 37; 50; 53] /\
   write_string CFormat dot = [37; 50; 69] /\
-  pct_dec (write_string CInfo [97; 59; 98; 61; 37]) = [97; 59; 98; 61; 37].
+  pct_dec (write_string CInfo [97; 59; 98; 61; 37]) = [97; 59; 98; 61; 37] /\
+  write_char CInfo 59 = [37; 51; 66] /\ parse_char (write_char CInfo 59) = Some 59.
 Proof. vm_compute. repeat split. Qed.
 
 Example c09_example_genotype :
